@@ -416,9 +416,13 @@ class Flow:
                 self.notes.append(f'constant condition `{ast.unparse(st.test)[:60]}`')
             a, b = self.branches(st.test, s)
             if a and b and s.hist is not None:
-                tv = self.val(st.test, s)
-                a = [self._with_hist(x, ('T', tv, True)) for x in a]
-                b = [self._with_hist(x, ('T', tv, False)) for x in b]
+                # `if not C` is recorded as the decision C with the opposite outcome
+                core, neg = st.test, False
+                while isinstance(core, ast.UnaryOp) and isinstance(core.op, ast.Not):
+                    core, neg = core.operand, not neg
+                tv = self.val(core, s)
+                a = [self._with_hist(x, ('T', tv, not neg)) for x in a]
+                b = [self._with_hist(x, ('T', tv, neg)) for x in b]
             if self.hooks is not None:
                 a, b = self.hooks.on_test(self, st, s, a, b)
             for x in a:
